@@ -117,6 +117,30 @@ def specError (g : Group) (model : Option Cause) (after : Env := []) : String :=
   | some c => if causeGroup c = g then "=error " ++ showCause c ++ " " ++ showEnv after else "=error " ++ showGroup g
   | none => "=error " ++ showGroup g
 
+/-- the model's leaf cause in the Spec's terms -/
+def failOfCause : Cause → Option Spec.Fail
+  | .eval .invalidVariableValue => some .value
+  | .eval .overflow => some (.reason .unrepresentable)
+  | .eval .divisionByZero => some (.reason .divisionByZero)
+  | .eval .leftShiftingNegative => some (.reason .leftShiftOfNegative)
+  | .eval .reverseShifting => some (.reason .negativeShiftCount)
+  | .eval .assignmentToValue => some .notLvalue
+  | _ => none
+
+/-- Spec column of an in-scope tree without a value: the reported cause must be one of the causes C admits for
+    this tree (`Spec.fails`: a set — C does not order unsequenced operands — computed on the tree, independent of
+    the code's evaluation order); a singleton whenever only one operand / operation fails. -/
+def specEvalError (e : Spec.Expr) (env : Env) (model : Option Cause) (after : Env) : String :=
+  let adm := Spec.fails e env
+  if adm.isEmpty then "FAIL:spec-has-no-value-but-admits-no-cause" else
+  match model with
+  | some c =>
+    match failOfCause c with
+    | some f => if adm.contains f then "=error " ++ showCause c ++ " " ++ showEnv after
+                else "=error CAUSE-NOT-ADMISSIBLE"
+    | none => "=error EVAL-GROUP"
+  | none => "=error EVAL-GROUP"
+
 def showSpec : Option (Int × Spec.Env) → String
   | some (v, env) => s!"ok {v} {showEnv env}"
   | none => "error"
@@ -189,8 +213,9 @@ def runE (portable : Bool) (envT textT : String) (treeWords : List String) : Str
           else if portable ∧ Spec.hasIncDec e then specError .portability cause after
           else if !Spec.inScope e then "-"
           else match Spec.evalExact e env with
-            | none => specError .eval cause after
-            | some r => "=" ++ showSpec (some r)
+            | none => specEvalError e env cause after
+            | some r =>
+              if !(Spec.fails e env).isEmpty then "FAIL:spec-has-a-value-but-admits-a-cause" else "=" ++ showSpec (some r)
     model ++ "\t" ++ spec
   | _, _ => "bad-case\t-"
 
@@ -402,8 +427,9 @@ def runW (portable : Bool) (extraT envT textT : String) (treeWords : List String
           else if portable ∧ Spec.hasIncDec e then specError .portability cause after
           else if !Spec.inScope e then "-"
           else match Spec.evalExact e env with
-            | none => specError .eval cause after
-            | some r => "=" ++ showSpec (some r)
+            | none => specEvalError e env cause after
+            | some r =>
+              if !(Spec.fails e env).isEmpty then "FAIL:spec-has-a-value-but-admits-a-cause" else "=" ++ showSpec (some r)
         | _ => "FAIL:bad-tree-in-case"
     model ++ "\t" ++ spec
   | _, _, _ => "bad-case\t-"
